@@ -136,19 +136,28 @@ func VerifC11_TwoInstances() {
 			{results: []byte{vI32}, export: "tnull", body: []byte{0x41, 0x00, 0x25, 0x00, 0xd1}},
 			{export: "tclear0", body: []byte{0x41, 0x00, 0xd0, 0x70, 0x26, 0x00}},
 		}}
-	bin := m.encode()
+	// + a passive data segment with functions  init(dst): memory.init 0 (dst, 0, 4)   and   drop: data.drop 0
+	m.funcs = append(m.funcs,
+		verifFunc{params: []byte{vI32}, export: "init", body: []byte{0x20, 0x00, 0x41, 0x00, 0x41, 0x04, 0xfc, 0x08, 0x01, 0x00}},
+		verifFunc{export: "drop", body: []byte{0xfc, 0x09, 0x01}})
+	bin := verifAddPassiveDataAfterActive(m.encode(), []byte{0xd1, 0xd2, 0xd3, 0xd4})
 	a, err := verifInstantiate(ctx, bin, "one", w.store, w.eng, nil, false)
 	verifrt.Assert(err == nil, "module accepted")
 	if err != nil {
 		return
 	}
-	b, err := verifInstantiate(ctx, bin, "two", w.store, w.eng, nil, false)
-	verifrt.Assert(err == nil, "second instance of the same compiled module")
-	if err != nil {
-		return
+	// the second instance is created before or after the first one is mutated
+	late := verifrt.Choose("second-created-late", 2) == 1
+	var b *verifInst
+	if !late {
+		b, err = verifInstantiateAgain(ctx, a, "two")
+		verifrt.Assert(err == nil, "second instance of the same compiled module")
+		if err != nil {
+			return
+		}
 	}
 	x, y := verifrt.U32("x"), verifrt.U32("y")
-	switch verifrt.Choose("op", 5) {
+	switch verifrt.Choose("op", 7) {
 	case 0:
 		a.inst.ExportedFunction("store").Call(ctx, uint64(x), uint64(y))
 	case 1:
@@ -160,6 +169,18 @@ func VerifC11_TwoInstances() {
 		a.inst.ExportedFunction("fill").Call(ctx, uint64(x), uint64(verifrt.U32("val")), uint64(y))
 	case 4:
 		a.inst.ExportedFunction("tclear0").Call(ctx)
+	case 5:
+		a.inst.ExportedFunction("drop").Call(ctx)
+	case 6:
+		a.inst.ExportedFunction("init").Call(ctx, uint64(x))
+		a.inst.ExportedFunction("drop").Call(ctx)
+	}
+	if late {
+		b, err = verifInstantiateAgain(ctx, a, "two")
+		verifrt.Assert(err == nil, "second instance of the same compiled module")
+		if err != nil {
+			return
+		}
 	}
 	// every observable of the second instance is as freshly instantiated
 	probe := verifrt.U32("probe")
@@ -176,5 +197,9 @@ func VerifC11_TwoInstances() {
 	verifrt.Assert(e2 == nil && len(st) == 2 && st[0] == 42 && st[1] == 1, "the other instance's global and memory size are unchanged")
 	tn, e3 := b.inst.ExportedFunction("tnull").Call(ctx)
 	verifrt.Assert(e3 == nil && len(tn) == 1 && tn[0] == 0, "the other instance's table element is unchanged")
+	// its passive segment is intact: memory.init copies it
+	_, e4 := b.inst.ExportedFunction("init").Call(ctx, 100)
+	r2, e5 := b.inst.ExportedFunction("load").Call(ctx, 100)
+	verifrt.Assert(e4 == nil && e5 == nil && len(r2) == 1 && r2[0] == 0xd4d3d2d1, "the other instance's passive data segment is intact (memory.init copies it)")
 	verifrt.Cover("isolated")
 }
